@@ -19,8 +19,8 @@ from .. import effects as E
 from .. import guards as G
 from ..model import AnalysisError, dotted, src
 
-TECHNIQUE = "interprocedural keyed-container pairing (init vs stop), who-indexes-with-what, guard dominance over the unit module (static analysis)"
-ENGINES = ["model", "flow"]
+TECHNIQUE = "interprocedural keyed-container pairing (init vs stop), who-indexes-with-what, guard dominance over the unit module; abstract interpretation of small functions over an enumerated finite domain by the checker's own AST interpreter (static analysis)"
+ENGINES = ["model", "flow", "circuit"]
 EXPLANATION = (
     "Over backend/executor.py, backend/qnodeos.py, sdk/shared_memory.py: parameter bindings are followed from "
     "init_new_application(app_id) and stop_application(app_id) through self-calls and class-method calls; the set of containers "
